@@ -154,6 +154,10 @@ func solveAll(prelude string, encs []*FnEnc, dir string, timeoutSec, workers int
 					b.WriteString("(check-sat)\n")
 					tmo = 2
 					order = []int{0}
+					if j.ob.LongCover {
+						tmo = 5
+						order = []int{0, 1}
+					}
 				} else {
 					fmt.Fprintf(&b, "(assert (not %s))\n(check-sat)\n", j.ob.Goal)
 				}
